@@ -233,6 +233,16 @@ def judge(prop, case, acc):
     def viol(p, key, msg):
         V.append((p, f'{p}/{key}', msg))
 
+    if case.get('alias_probe'):
+        # aliasing probe: what accessors hand out must be copies -- editing it must not reach the shared default calendar
+        import pjplan
+        try:
+            d_ = pjplan.DEFAULT_CALENDAR.get_week_day_hours()
+            d_[5] = 8
+            d_[0] = 0
+        except Exception:
+            pass
+        acc.count('alias_probes')
     before = sched.wbs_snapshot(b.wbs, b.externals)
     in_ids = {id(t) for t in b.wbs.tasks}
     clock0 = Clock.calls
@@ -706,6 +716,9 @@ def judge(prop, case, acc):
             pends = [T[p].end for p in own + inh] + [e['end'] for e in ext]
             release = max([case['date'], now] + ([t['min_start']] if t['min_start'] else []) + pends)
             lastday = max(nd_days) if nd_days else day(rt.start)
+            if work == 0 and nd_days:
+                # "its start day when it has no work": a leaf without remaining work has no work day at all
+                viol('C08', 'work-days-for-a-task-without-work', f'task {rt.id} has no remaining work (estimate {est}, spent {t["spent"] or 0}) but work is booked on {sorted(nd_days)[:3]}')
             if bal:
                 acc.ev()
                 acc.count('tight_leaves')
@@ -1063,6 +1076,7 @@ def run_shard(prop, tier, seed, shard, nshards, budget, acc):
             direction = 'fwd' if prop in FWD_ONLY else 'bwd' if prop in BWD_ONLY else None
             case = sched.gen_case(rnd, direction, n_max=n_max)
             case['warm'] = rnd.random() < 0.3
+            case['alias_probe'] = rnd.random() < 0.1
             if prop == 'C08' and rnd.random() < 0.7:
                 case['balance'] = True
             if prop == 'C09' and rnd.random() < 0.8:
